@@ -1,6 +1,8 @@
 import CatiiProofs.IndxTop
 import CatiiProofs.IndxSaveGen
 import CatiiProofs.IndxLoadGen
+import CatiiProps.C10
+import CatiiProps.C12
 /-!
 # C11 — INDX files are byte-for-byte the documented layout
 
@@ -105,6 +107,27 @@ theorem generated_reader_accepts_layout (b : Bytes) (es : List Entry) (c wi wr :
     (hlay : Layout b es c wi wr) (hfit : Fits es c wi wr) (hsize : b.length < 16 + 2^64) :
     runR Gen.loadProgram b = .ok (es, c, wr) := by
   rw [runR_loadProgram]; exact reader_accepts_layout b es c wi wr hlay hfit hsize
+
+/-- **on the programs regenerated from the source**: the reads of the current `IndxIO.load` (`Gen.loadProgram`), run on what the
+writes of the current `IndxIO.save` (`Gen.saveProgram`, with the size `Gen.bufferSizeGen` computes) put into the file, give back the
+entries, the common value and the uint32 row-id word - for every accepted input -/
+theorem generated_save_load_identity (es : List Entry) (c : Nat) (h : InScope es c) :
+    runR Gen.loadProgram (runW ⟨es, c, arityOf es, indexWordSize es c, 4,
+      Gen.bufferSizeGen es.length (arityOf es) (indexWordSize es c) 4 (es.map (·.rowids.length)).sum⟩ Gen.saveProgram)
+      = .ok (es, c, 4) := by
+  rw [runR_loadProgram]
+  exact C10.load_of_saved es c _ (generated_writer_is_save es c h)
+
+/-- **on the programs regenerated from the source**: what the current writer's writes put into a file, cut at ANY byte short of
+the end, makes the current loader's reads fail (header, version, short size word, or the mapping of 16 + size bytes) -/
+theorem generated_reader_rejects_every_prefix (es : List Entry) (c : Nat) (h : InScope es c) (k : Nat)
+    (hk : k < (runW ⟨es, c, arityOf es, indexWordSize es c, 4,
+      Gen.bufferSizeGen es.length (arityOf es) (indexWordSize es c) 4 (es.map (·.rowids.length)).sum⟩ Gen.saveProgram).length) :
+    ∃ e, runR Gen.loadProgram ((runW ⟨es, c, arityOf es, indexWordSize es c, 4,
+      Gen.bufferSizeGen es.length (arityOf es) (indexWordSize es c) 4 (es.map (·.rowids.length)).sum⟩ Gen.saveProgram).take k)
+        = .error e ∧ TornErr e := by
+  rw [runR_loadProgram]
+  exact C12.torn_file_rejected es c _ (generated_writer_is_save es c h) k hk
 
 example : runW ⟨[⟨[1, 0], [3, 5]⟩], 0, 2, 1, 4, 22⟩ Gen.saveProgram =
     [73,78,68,88, 48,48,48,49, 22,0,0,0,0,0,0,0, 2, 1,0,0,0, 1, 0, 1,0, 4, 2,0,0,0, 3,0,0,0, 5,0,0,0] := by
